@@ -70,6 +70,32 @@ func parallel(n int, f func(i int)) {
 	wg.Wait()
 }
 
+// parallelN runs f(i) for i in [0,n) on w goroutines.
+func parallelN(w, n int, f func(i int)) {
+	if w > n {
+		w = n
+	}
+	if w < 1 {
+		w = 1
+	}
+	var wg sync.WaitGroup
+	ch := make(chan int, 256)
+	for k := 0; k < w; k++ {
+		wg.Add(1)
+		go func() {
+			defer wg.Done()
+			for i := range ch {
+				f(i)
+			}
+		}()
+	}
+	for i := 0; i < n; i++ {
+		ch <- i
+	}
+	close(ch)
+	wg.Wait()
+}
+
 func tierWorkers(tier string) int {
 	if tier == "thorough" {
 		return runtime.NumCPU()
